@@ -1138,7 +1138,7 @@ func genC18(g *G) {
 				ks = append(ks, k)
 			}
 		} else {
-			for i := 0; i < g.Count(25, 400); i++ {
+			for i := 0; i < g.Count(12, 400); i++ {
 				ks = append(ks, g.Intn(n+1))
 			}
 		}
@@ -1325,14 +1325,14 @@ func genC18(g *G) {
 				others = append(others, i+1)
 			}
 		}
-		for len(closers) > g.Count(45, 400) { // (huge values: a random subset)
+		for len(closers) > g.Count(30, 400) { // (huge values: a random subset)
 			j := g.Intn(len(closers))
 			closers = append(closers[:j], closers[j+1:]...)
 		}
 		for _, k := range closers {
 			g.Emit("store", kind, "die", itoa(k), old, nw)
 		}
-		for i := 0; i < g.Count(12, 300) && len(others) > 0; i++ {
+		for i := 0; i < g.Count(8, 300) && len(others) > 0; i++ {
 			g.Emit("store", kind, "die", itoa(others[g.Intn(len(others))]), old, nw)
 		}
 		// … and inside sequences: die at a closing brace, restart, read, store again, read
